@@ -191,6 +191,19 @@ func (s *Solver) readVerdict() (Verdict, string) {
 	}
 }
 
+// MaybeRestart starts a fresh solver process when the current one has accumulated many
+// definitions (called between paths only).
+func (s *Solver) MaybeRestart() {
+	if s.ndef > 300000 {
+		s.restart()
+	}
+}
+
+// Define makes sure t is declared in the solver (sent with the next command).
+func (s *Solver) Define(t *Term) {
+	s.ndef += emitDefs(&s.buf, s.defined, []*Term{t})
+}
+
 // Check decides satisfiability of the conjunction of lits.
 func (s *Solver) Check(lits []*Term) (Verdict, string) {
 	t0 := time.Now()
@@ -207,9 +220,6 @@ func (s *Solver) Check(lits []*Term) (Verdict, string) {
 			continue
 		}
 		use = append(use, l)
-	}
-	if s.ndef > 400000 {
-		s.restart()
 	}
 	s.ndef += emitDefs(&s.buf, s.defined, use)
 	s.buf.WriteString("(check-sat-assuming (")
